@@ -58,6 +58,7 @@ type Model struct {
 	rfOnStack map[*ssa.Function]bool
 	rpMemo map[string][]map[string]Lit
 	justDepth int
+	notifyMemo map[*ssa.Function]bool
 	edgeHook func(l Lit, flag int) (int, bool)
 	descend func(f *ssa.Function) bool
 	assumeNil map[ssa.Value]bool
